@@ -121,6 +121,7 @@ class DSProxy:
 
   def __init__(self, real):
     self.__dict__['_r'] = real
+    self.__dict__['created'] = []   # names of trials created since the list was last cleared
 
   def __getattr__(self, n):
     f = getattr(self._r, n)
@@ -128,6 +129,8 @@ class DSProxy:
       return f
 
     def w(*a, **k):
+      if n == 'create_trial' and a:
+        self.__dict__['created'].append(getattr(a[0], 'name', ''))
       if SLock.sched is not None and SLock.sched.cur is not None:
         tag = 'ds.' + n
         if n in ('create_trial', 'delete_trial', 'update_trial') and a:
